@@ -341,6 +341,18 @@ def pack(shape_list, namespace, per_protocol=25, per_package=100, with_records=T
     return pkgs
 
 
+# ------------------------------------------------------------------ a protocol whose schema text is longer than the 64 KiB buffers
+def bigschema_package(namespace="Big"):
+    """One protocol over 32 records of 25 fields with 60-character names: the embedded schema is > 65536 bytes, so the header
+    itself straddles the writers' and readers' staging buffers."""
+    defs, steps = [], []
+    for r in range(32):
+        fields = [("f%02dx%02d" % (r, f) + "q" * 54, P("int32") if f % 3 else P("string")) for f in range(25)]
+        defs.append(Record("BigRecord%02d" % r, fields))
+        steps.append(("r%02d" % r, N("BigRecord%02d" % r) if r % 4 else Stream(N("BigRecord%02d" % r))))
+    return Package(namespace, defs=defs, protocols=[Protocol("PBig", steps)], dirname=namespace.lower())
+
+
 # ------------------------------------------------------------------ step-pattern package (adjacent / empty streams)
 def pattern_package(maxlen=4, namespace="Pat"):
     """All protocols over {N = non-stream int32 step, S = stream of int32, R = stream of RS records} of length <= maxlen
